@@ -1,15 +1,36 @@
 #!/bin/sh
 # Must-fail corpus: every patch breaks one property while compiling; the named check must report a violation
 # whose obligation matches. Each patch is applied to a scratch copy of /repo outside /repo and /verif.
+# usage: run.sh [expected.tsv] [parallelism]
 cd "$(dirname "$0")"
-fail=0
-while IFS="$(printf '\t')" read -r patch prop expect; do
-  [ -z "$patch" ] && continue
+list="${1:-expected.tsv}"
+par="${2:-1}"
+one() {
+  patch=$1; prop=$2; expect=$3
   tmp=$(mktemp -d /tmp/govc-selftest.XXXXXX)
   cp -r /repo/. "$tmp"/ 2>/dev/null
-  if ! (cd "$tmp" && patch -p1 -s < "$OLDPWD/$patch"); then echo "SELFTEST $patch: patch does not apply"; fail=1; rm -rf "$tmp"; continue; fi
+  if ! (cd "$tmp" && patch -p1 -s < "$OLDPWD/$patch"); then echo "SELFTEST $patch: patch does not apply"; rm -rf "$tmp"; return 1; fi
   out=$(GOVC_ROOT="$tmp/.verif" sh -c "mkdir -p $tmp/.verif && cp ../props.json ../known_findings.jsonl ../undecided.jsonl $tmp/.verif/ && ../bin/govc check -p $prop -repo $tmp" 2>&1)
-  if echo "$out" | grep "^FAILED" | grep -qF "$expect"; then echo "SELFTEST $patch: detected ($prop, $expect)"; else echo "SELFTEST $patch: MISSED ($prop, expected $expect)"; echo "$out" | tail -3; fail=1; fi
   rm -rf "$tmp"
-done < "${1:-expected.tsv}"
-exit $fail
+  if echo "$out" | grep "^FAILED" | grep -qF "$expect"; then echo "SELFTEST $patch: detected ($prop, $expect)"; return 0; fi
+  echo "SELFTEST $patch: MISSED ($prop, expected $expect)"; echo "$out" | grep "^FAILED\|^SKIPPED" | cut -c1-200 | head -4; echo "$out" | tail -1
+  return 1
+}
+if [ "$par" = "1" ]; then
+  fail=0
+  while IFS="$(printf '\t')" read -r patch prop expect; do
+    [ -z "$patch" ] && continue
+    one "$patch" "$prop" "$expect" || fail=1
+  done < "$list"
+  exit $fail
+fi
+# parallel mode: one background job per line, at most $par at a time
+fail=0
+n=0
+while IFS="$(printf '\t')" read -r patch prop expect; do
+  [ -z "$patch" ] && continue
+  ( one "$patch" "$prop" "$expect" ) &
+  n=$((n+1))
+  if [ $((n % par)) -eq 0 ]; then wait; fi
+done < "$list"
+wait
